@@ -106,19 +106,23 @@ class C10(F.PropCheck):
     def fam_interrupt(self, rng, tier):
         """commands in the second after a stop at 10-20 ms resolution (start delay / delayed trigger), re-requested targets"""
         full = rng.choice([2000, 5000, 17300])
-        evs = [self.cfg(margin=rng.choice([-1, 5]), pos0=rng.choice([100, 5100, 10100, rng.randrange(100, 10101)]), t1=full, t2=full)]
+        window = rng.random() < 0.6
+        pos0 = rng.randrange(3000, 7000) if window else rng.choice([100, 5100, 10100, rng.randrange(100, 10101)])
+        evs = [self.cfg(margin=rng.choice([-1, 5]), pos0=pos0, t1=full, t2=full)]
         evs += self.ticks(rng, 30000, 'exact10', 0)
         evs.append(('TASK', [rng.randrange(0, 101), -1], b''))
-        evs += self.ticks(rng, rng.choice([300000, 800000, full * 1000]), 'exact10', 0)
+        evs += self.ticks(rng, rng.choice([300000, 800000, 1500000]), 'exact10', 0)
         evs.append(('RELAY', [0, 1, rng.randrange(2)], b''))                      # stop at T0
-        t0_gap = rng.choice([10, 50, 200, 500, 880])
+        t0_gap = rng.choice([10, 20, 50, 200, 500, 880])
         evs += self.ticks(rng, t0_gap * 1000, 'exact10', 0)
-        evs.append(('TASK', [rng.choice([0, 100, rng.randrange(0, 101)]), -1], b''))   # target < 1 s later: delayed start armed
-        second = rng.choice([900, 910, 920, 940, 960, 980, 990, 1000, 1010, rng.randrange(0, 1200)])
+        a = rng.choice([0, 100])
+        evs.append(('TASK', [a if window else rng.choice([0, 100, rng.randrange(0, 101)]), -1], b''))   # target < 1 s after the stop: delayed start armed
+        second = rng.choice(list(range(890, 1021, 10))) if window else rng.choice([900, 950, 1000, 1010, rng.randrange(0, 1200)])
         if second > t0_gap: evs += self.ticks(rng, (second - t0_gap) * 1000, 'exact10', 0)
-        evs.append(rng.choice([('TASK', [rng.choice([0, 100, rng.randrange(0, 101)]), -1], b''), ('RELAY', [rng.choice([1, 2]), 1, 1], b'')]))
+        if window: evs.append(('TASK', [100 - a, -1], b''))                      # opposite direction inside [T0+0.9 s, T0+1 s]
+        else: evs.append(rng.choice([('TASK', [rng.choice([0, 100, rng.randrange(0, 101)]), -1], b''), ('RELAY', [rng.choice([1, 2]), 1, 1], b'')]))
         evs += self.ticks(rng, full * 1000 * 2 + 2500000, 'exact10', 0, maxn=5000)
-        return evs, ['interrupt-after-stop', 'full%d' % full]
+        return evs, ['interrupt-after-stop', 'full%d' % full] + (['opposite-target-in-start-delay-window'] if window else [])
 
     def fam_fb(self, rng, tier):
         full = rng.choice([10000, 17300, 5000, 3000]); ttype = rng.choice([1, 2, 3])
